@@ -9,7 +9,7 @@ if ! git apply --3way "$diff" 2>/tmp/apply.err && ! git apply "$diff" 2>>/tmp/ap
 fi
 git reset -q
 for id in "$@"; do
-  out=$(cd /verif && VERIF_SEED=${VERIF_SEED:-1} ./check "$id" ${TIER:-quick} 2>&1)
+  out=$(cd /verif && VERIF_EVIDENCE_DIR=/tmp/trymutant-evidence VERIF_SEED=${VERIF_SEED:-1} ./check "$id" ${TIER:-quick} 2>&1)
   rc=$?
   echo "$id rc=$rc $(echo "$out" | grep -E "^(VIOLATION|INCONCLUSIVE|KNOWN)" | head -2 | tr '\n' ' ')"
   if [ -n "${VERBOSE:-}" ]; then echo "$out" | tail -15; fi
